@@ -123,7 +123,25 @@ class Sut:
             payload = RadioRegistrationService(opcode=op, radio_ip=ip, is_reliable=bool(self.rng.getrandbits(1)),
                                                renew_time_seconds=self.rng.randrange(1, 0xFFFE))
         elif m["payload"] == "hdap_other":
-            raw_payload = bytes.fromhex(self.rng.choice(OTHER_HDAP))
+            # any HDAP message that is not a registration-service one: the captured ones, or a generated message of any other
+            # family / opcode (the builders of the C12 driver)
+            k = self.rng.random()
+            if k < 0.4:
+                raw_payload = bytes.fromhex(self.rng.choice(OTHER_HDAP))
+            elif k < 0.5:
+                # a text message whose text is not valid UTF-16 (odd length, lone surrogate): well-formed HDAP all the same
+                from okdmr.dmrlib.hytera.pdu.text_message_protocol import TextMessageProtocol, TMPService
+                raw_payload = TextMessageProtocol(opcode=self.rng.choice([TMPService.SendPrivateMessage, TMPService.SendGroupMessage]),
+                                                  request_id=self.rng.randrange(1 << 24), destination_ip=RadioIP(self.rng.randrange(1 << 24)),
+                                                  source_ip=RadioIP(self.rng.randrange(1 << 24)),
+                                                  text_data=self.rng.choice([b"a", b"\x00\xd8", gen.rbytes(self.rng, 5)])).as_bytes()
+            else:
+                from harness.drivers import c12
+                bs = [b for b in c12.builders() if b[0] != "RRS"]
+                while True:
+                    raw_payload = bs[self.rng.randrange(len(bs))][2](self.rng).as_bytes()
+                    if len(raw_payload) <= 200:
+                        break
         return HSTRP(pkt_type=pt, sn=m["sn"], options=options, payload=payload).as_bytes() + raw_payload
 
     def recv(self, data, m, who=1):
